@@ -16,6 +16,7 @@ import Proofs.GoTieUnwrap
 import Proofs.GoTieDecrypt
 import Proofs.GoTieAead
 import Props.C04
+import Proofs.GoTieWitnessA
 namespace AgeModel
 namespace Tie.C04
 
@@ -82,6 +83,15 @@ theorem code_decrypt_no_match (P : Prims) {ι : Type} (E : GoTie.DecryptEnv P ι
   simp only [List.length_map] at hres
   rw [hrun, hres]
   rfl
+
+/-- **the assumption structures this file's theorems take are satisfiable** (for a lawful toy primitive suite
+    with the 16-byte tag, where they mention primitives): none of the theorems above is vacuous. The instances are in
+    `Proofs/GoTieWitnessA.lean` / `GoTieWitnessB.lean`. -/
+theorem assumptions_satisfiable :
+    Prims.toy16.Correct ∧ Prims.toy16.aead.NonceSep ∧ Prims.toy16.aead.T = 16 ∧
+    Nonempty (GoTie.DecryptEnv Prims.toy16 Identity) ∧
+    Nonempty (GoTie.WrapAeadEnv Bytes Prims.toy16) :=
+  ⟨Prims.toy16_correct, AEAD.toy16_nonceSep, rfl, ⟨GoTie.DecryptEnv.witness⟩, ⟨GoTie.WrapAeadEnv.witness⟩⟩
 
 end Tie.C04
 end AgeModel
